@@ -329,6 +329,13 @@ func (t *TaintSpec) TaintedSinks(fn *ssa.Function) []Sink {
 // signedOnly reports whether the matched comparison was made on a signed conversion of
 // an unsigned leaf (so that huge values wrap to negatives and pass).
 func atomUpperBounded(leaf ssa.Value, sawUnsigned *bool) *Atom {
+	return atomUpperBoundedMode(leaf, sawUnsigned, false)
+}
+
+// atomUpperBoundedMode: with unsignedOnly, only comparisons made in the unsigned domain
+// count (a bound established there also excludes the values that a later conversion to a
+// signed type turns negative).
+func atomUpperBoundedMode(leaf ssa.Value, sawUnsigned *bool, unsignedOnly bool) *Atom {
 	return &Atom{Name: "untrusted<=bound", Match: func(cond ssa.Value) (int, int) {
 		op, x, y, ok := Cmp(cond)
 		if !ok {
@@ -361,6 +368,8 @@ func atomUpperBounded(leaf ssa.Value, sawUnsigned *bool) *Atom {
 		}
 		if bt, ok := x.Type().Underlying().(*types.Basic); ok && bt.Info()&types.IsUnsigned != 0 {
 			*sawUnsigned = true
+		} else if unsignedOnly {
+			return 0, 0
 		}
 		switch op {
 		case token.LSS, token.LEQ:
@@ -461,6 +470,31 @@ func (t *TaintSpec) Bounded(p *Prog, fn *ssa.Function, s Sink) SinkVerdict {
 		}
 		a := atomUpperBounded(leaf, &sawUnsigned)
 		cut, per := CutEdges(fn, Lit{A: a, Want: true})
+		// which domain does the bound come from? A comparison on the unsigned value that
+		// does not lie on the flow (a lower-bound refusal, say) must not vouch for the sign
+		// when the bound that cuts the flow was made on the converted, signed value.
+		boundedUnsigned := false
+		if _, isInstr := leaf.(ssa.Instruction); isInstr {
+			su2 := false
+			cutU, perU := CutEdges(fn, Lit{A: atomUpperBoundedMode(leaf, &su2, true), Want: true})
+			if perU[0] > 0 {
+				flowsU := FlowPath(s.Val, s.Instr, func(x ssa.Value) bool { return x == leaf }, cutU, func(x ssa.Value) []ssa.Value {
+					switch y := x.(type) {
+					case *ssa.BinOp:
+						return []ssa.Value{y.X, y.Y}
+					case *ssa.Convert:
+						return []ssa.Value{y.X}
+					case *ssa.Call:
+						if b, ok := y.Call.Value.(*ssa.Builtin); ok && (b.Name() == "min" || b.Name() == "max") {
+							return y.Call.Args
+						}
+					}
+					return nil
+				})
+				boundedUnsigned = !flowsU
+			}
+			sawUnsigned = boundedUnsigned
+		}
 		start := Point{fn.Blocks[0], 0}
 		if in, ok := leaf.(ssa.Instruction); ok {
 			start = After(in)
